@@ -9,11 +9,57 @@ import (
 	"fmt"
 	"io"
 	"os"
+	"os/exec"
+	"os/signal"
 	"path/filepath"
+	"strconv"
+	"strings"
+	"syscall"
 	"testing"
 
 	"github.com/go-gts/gts/cmd/cache"
 )
+
+// TestC13Child is the writer process of the write-fault part: it limits the size of files it may write
+// (RLIMIT_FSIZE, what `ulimit -f` sets), so that a Write or the final flush inside Close fails with EFBIG at a
+// chosen byte, runs Create/Write/Close through the real API and reports what Close returned.
+func TestC13Child(t *testing.T) {
+	dir := os.Getenv("VERIF_C13_CHILD_DIR")
+	if dir == "" {
+		t.Skip("helper process only")
+	}
+	atoi := func(k string) int { v, _ := strconv.Atoi(os.Getenv(k)); return v }
+	body := c13Body(os.Getenv("VERIF_C13_BODY"), atoi("VERIF_C13_LEN"), atoi("VERIF_C13_SEED"))
+	rsum, dsum := c13Digests(atoi("VERIF_C13_SEED"))
+	signal.Ignore(syscall.SIGXFSZ)
+	lim := uint64(atoi("VERIF_C13_LIMIT"))
+	if err := syscall.Setrlimit(syscall.RLIMIT_FSIZE, &syscall.Rlimit{Cur: lim, Max: lim}); err != nil {
+		fmt.Println("C13CHILD setrlimit-failed")
+		return
+	}
+	f, err := cache.CreateLevel(dir, sha1.New(), rsum, dsum, atoi("VERIF_C13_LEVEL"))
+	if err != nil {
+		fmt.Println("C13CHILD create-error")
+		return
+	}
+	werr := error(nil)
+	n := atoi("VERIF_C13_CHUNKS")
+	if n < 1 {
+		n = 1
+	}
+	for k := 0; k < n && werr == nil; k++ {
+		_, werr = f.Write(body[len(body)*k/n : len(body)*(k+1)/n])
+	}
+	cerr := f.Close()
+	switch {
+	case werr != nil:
+		fmt.Println("C13CHILD write-error")
+	case cerr != nil:
+		fmt.Println("C13CHILD close-error")
+	default:
+		fmt.Println("C13CHILD close-ok")
+	}
+}
 
 type c13Case struct {
 	Body   string `json:"body"` // empty, one, text, random, compressible
@@ -130,7 +176,58 @@ func c13Make(c c13Case) (*c13Entry, *Violation) {
 	return e, nil
 }
 
+// c13WriteFault: the writer runs in a child process whose file-size limit makes a Write or the final flush fail.
+// Whatever the writer reports, an entry that opens must read back exactly the body; and a writer that reported
+// success must have left an entry that opens.
+func c13WriteFault(c c13Case) *Violation {
+	dir := filepath.Join(c13Dir(), "wf")
+	os.RemoveAll(dir)
+	os.MkdirAll(dir, 0o755)
+	defer os.RemoveAll(dir)
+	cmd := exec.Command(os.Args[0], "-test.run", "^TestC13Child$")
+	cmd.Env = append(os.Environ(), "VERIF_C13_CHILD_DIR="+dir, "VERIF_C13_BODY="+c.Body, fmt.Sprint("VERIF_C13_LEN=", c.Len), fmt.Sprint("VERIF_C13_SEED=", c.Seed),
+		fmt.Sprint("VERIF_C13_CHUNKS=", c.Chunks), fmt.Sprint("VERIF_C13_LEVEL=", c.Level), fmt.Sprint("VERIF_C13_LIMIT=", c.Off))
+	out, _ := cmd.CombinedOutput()
+	status := ""
+	for _, ln := range strings.Split(string(out), "\n") {
+		if strings.HasPrefix(ln, "C13CHILD ") {
+			status = strings.TrimPrefix(ln, "C13CHILD ")
+		}
+	}
+	if status == "" || status == "setrlimit-failed" {
+		skipCase("write-fault-child-unavailable")
+		return nil
+	}
+	body := c13Body(c.Body, c.Len, c.Seed)
+	rsum, dsum := c13Digests(c.Seed)
+	var got []byte
+	var err, rerr error
+	if pi := guard(func() {
+		var f *cache.File
+		f, err = cache.Open(dir, sha1.New(), rsum, dsum)
+		if err == nil {
+			got, rerr = io.ReadAll(f)
+		}
+		if f != nil {
+			f.Close()
+		}
+	}); pi != nil {
+		return panicViolation("Open after a write fault", pi)
+	}
+	what := fmt.Sprintf("body %s/%d (level %d, %d chunks), writer limited to %d bytes reported %q", c.Body, c.Len, c.Level, c.Chunks, c.Off, status)
+	if err == nil && (rerr != nil || !bytes.Equal(got, body)) {
+		return viol("wrong-bytes", "%s: the entry opens but reading gives %d bytes (err %v), %d were written", what, len(got), rerr, len(body))
+	}
+	if status == "close-ok" && err != nil {
+		return viol("rejected-valid", "%s: Close reported success but the entry does not open: %v", what, err)
+	}
+	return nil
+}
+
 func c13Check(c c13Case) *Violation {
+	if c.Fault == "write-limit" {
+		return c13WriteFault(c)
+	}
 	e, v := c13Make(c)
 	if v != nil {
 		return v
@@ -254,7 +351,7 @@ func c13Classify(c c13Case) (bool, []string) {
 			labels = append(labels, "flip-body")
 			nt = true
 		}
-	case "crash-body", "crash-header", "live":
+	case "crash-body", "crash-header", "live", "write-limit":
 		nt = true
 	case "prefix", "tail":
 		nt = c.Off >= 60 || c.Fault == "tail"
@@ -331,6 +428,15 @@ func TestC13(t *testing.T) {
 					for j := 0; j <= 60; j++ {
 						if !try(mk("crash-header", j, 0)) {
 							return
+						}
+					}
+					// write faults: the file-size limit of the writer process ends somewhere in the placeholder, in the
+					// body, or just short of the finished size (so that only the final flush inside Close fails)
+					if chunks == 1 && level == levels[0] && seed == seeds[0] {
+						for _, lim := range []int{0, 1, 59, 60, 61, 60 + (size-60)/2, size - 20, size - 5, size - 3, size - 2, size - 1, size, size + 10} {
+							if lim >= 0 && !try(mk("write-limit", lim, 0)) {
+								return
+							}
 						}
 					}
 					// offsets: all of them for small files, header + spread sample for large ones
